@@ -237,22 +237,122 @@ EK = {"KeyError": "PyKeyError", "AttributeError": "PyAttributeError", "ValueErro
       "TypeError": "PyTypeError", "IndexError": "PyIndexError"}
 
 
-def contexts():
+# A call history is a list of ops executed in ONE process after `import qcelemental`:
+#   ["new", "CODATA2014" | "CODATA2018" | None]   construct a context (None = no argument); it becomes object #len(objs)
+#   ["units", k]                                   use object #k for a unit conversion (builds its pint registry from raw_codata)
+# Object "default" is the module-level singleton qcelemental.constants. The base objects of every run are BASE_OPS; the
+# `history` stream continues with LATER_OPS (second and third contexts of each year, built in both orders, each used for a
+# unit conversion before the next one is built) and enumerates every freshly built object like the base ones.
+BASE_OPS = [["new", "CODATA2014"], ["new", "CODATA2018"], ["new", None]]
+BASE_NAMES = {"CODATA2014": 0, "CODATA2018": 1, "noarg": 2}
+LATER_OPS = [["units", 0], ["units", 1], ["units", "default"],
+             ["new", "CODATA2018"], ["units", 3], ["new", "CODATA2014"], ["units", 4],
+             ["new", "CODATA2014"], ["units", 5], ["new", "CODATA2018"], ["units", 6]]
+YEAR_OF_ARG = {"CODATA2014": 2014, "CODATA2018": 2018, None: 2014}
+
+
+def run_ops(ops, objs=None):
+    """Execute a call history; -> list of constructed objects (in construction order)."""
     import qcelemental
     from qcelemental.physical_constants import PhysicalConstantsContext
-    return {"CODATA2014": (2014, PhysicalConstantsContext("CODATA2014")),
-            "CODATA2018": (2018, PhysicalConstantsContext("CODATA2018")),
-            "default": (2014, qcelemental.constants),
-            "noarg": (2014, PhysicalConstantsContext())}       # the documented default of the constructor argument
+    objs = [] if objs is None else objs
+    for op, arg in ops:
+        if op == "new":
+            objs.append(PhysicalConstantsContext() if arg is None else PhysicalConstantsContext(arg))
+        elif op == "units":
+            o = qcelemental.constants if arg == "default" else objs[arg]
+            o.conversion_factor("hartree", "kJ/mol")
+        else:
+            raise ValueError(op)
+    return objs
 
 
-def impl_call(cobj, route, name):
-    """-> ('datum', label, units, (coef,exp), comment, doi) | ('float', x) | ('err', class) | ('other', repr)"""
+def _drop_op(ops, obj, i):
+    """ops without op i (object numbers renumbered); None if op i builds the object that is asked."""
+    if ops[i][0] == "units":
+        return [list(o) for j, o in enumerate(ops) if j != i], obj
+    k = sum(1 for o in ops[:i] if o[0] == "new")
+    if obj == k:
+        return None
+    out = []
+    for j, o in enumerate(ops):
+        if j == i:
+            continue
+        if o[0] == "units" and o[1] != "default":
+            if o[1] == k:
+                continue
+            out.append(["units", o[1] - 1 if o[1] > k else o[1]])
+        else:
+            out.append(list(o))
+    return out, (obj - 1 if obj != "default" and obj > k else obj)
+
+
+def minimise_history(ctx, failures, budget=36):
+    """Shorten the call history of the first failing case of each stream: drop ops (last first) as long as a FRESH process
+    executing the shorter history still fails the oracle. Bounded by `budget` probe processes (about 1.5 s each)."""
+    import json
+    import subprocess
+    import sys
+    seen = set()
+    tmp = os.path.join(coqrun.BUILD, f"c02-history-probe-{os.getpid()}.json")
+    for f in failures:
+        case = f.get("case") or {}
+        if "ops" not in case or f["stream"] in seen or case.get("route") == "construct":
+            continue
+        seen.add(f["stream"])
+        ops, obj = [list(o) for o in case["ops"]], case["obj"]
+        i = len(ops) - 1
+        while i >= 0 and budget > 0:
+            cand = _drop_op(ops, obj, i)
+            if cand is not None:
+                budget -= 1
+                with open(tmp, "w") as fh:
+                    json.dump({"stream": f["stream"], "case": dict(case, ops=cand[0], obj=cand[1])}, fh)
+                try:
+                    rc = subprocess.run([sys.executable, "-c", "import sys; from harness.core import main; sys.exit(main())", ctx.pid, "--replay", tmp],
+                                        cwd=os.path.dirname(os.path.dirname(os.path.dirname(os.path.abspath(__file__)))),
+                                        stdout=subprocess.DEVNULL, stderr=subprocess.DEVNULL, timeout=60).returncode
+                except Exception:
+                    rc = None
+                if rc == 1:
+                    ops, obj = cand
+            i -= 1
+        if len(ops) < len(case["ops"]):
+            f["case"] = dict(case, ops=ops, obj=obj, ops_before_minimisation=case["ops"])
     try:
-        if route == "get":
-            r = cobj.get(name)
-        elif route == "tuple":
-            r = cobj.get(name, return_tuple=True)
+        os.remove(tmp)
+    except OSError:
+        pass
+
+
+def contexts():
+    import qcelemental
+    objs = run_ops(BASE_OPS)
+    out = {nm: (YEAR_OF_ARG[BASE_OPS[k][1]], objs[k]) for nm, k in BASE_NAMES.items()}
+    out["default"] = (2014, qcelemental.constants)
+    return {k: out[k] for k in ("CODATA2014", "CODATA2018", "default", "noarg")}   # noarg: the documented default of the constructor argument
+
+
+GET_FORMS = {
+    "get": [lambda o, n: o.get(n), lambda o, n: o.get(n, False), lambda o, n: o.get(n, return_tuple=False),
+            lambda o, n: o.get(physical_constant=n), lambda o, n: o.get(physical_constant=n, return_tuple=False)],
+    "tuple": [lambda o, n: o.get(n, return_tuple=True), lambda o, n: o.get(n, True),
+              lambda o, n: o.get(physical_constant=n, return_tuple=True), lambda o, n: o.get(return_tuple=True, physical_constant=n)],
+}
+GET_FORM_TEXT = {
+    "get": ["get(name)", "get(name, False)", "get(name, return_tuple=False)", "get(physical_constant=name)",
+            "get(physical_constant=name, return_tuple=False)"],
+    "tuple": ["get(name, return_tuple=True)", "get(name, True)", "get(physical_constant=name, return_tuple=True)",
+              "get(return_tuple=True, physical_constant=name)"],
+}
+
+
+def impl_call(cobj, route, name, form=0):
+    """-> ('datum', label, units, (coef,exp), comment, doi) | ('float', x) | ('err', class) | ('other', repr).
+    form: which of the equivalent documented spellings of the get() call is used (GET_FORM_TEXT)."""
+    try:
+        if route in ("get", "tuple"):
+            r = GET_FORMS[route][form or 0](cobj, name)
         elif route == "attr":
             r = getattr(cobj, name)
         else:
@@ -448,8 +548,10 @@ def correspond(ctx):
     corr.rule = ("every name the property speaks about (all NIST rows of the context's year, the 2014 names in the 2018 set, calorie-joule, "
                  "the 27 aliases, the 3 derived 2018 constants) plus every other key the implementation holds, x {published spelling, "
                  "lower, upper, random case} x {get, get(return_tuple), pc[...], attribute}, in CODATA2014, CODATA2018, the default "
-                 "singleton and a context constructed without argument; plus non-names. A case is non-trivial if the implementation returned a value (not an error); distinct = "
-                 "distinct (context, route, spelling). Decimal values compared as (coefficient, exponent) i.e. str(Decimal) exactly; "
+                 "singleton and a context constructed without argument; plus non-names. Call histories (wave 4): the same enumeration on the second and third "
+                 "context of each year built later in the same process (2018 after 2014, 2014 after 2018, each object used for a unit conversion "
+                 "before the next is built), and once more, in shuffled order, on the first objects and the singleton after all of that. A case is non-trivial if the implementation returned a value (not an error); distinct = "
+                 "distinct (context object, route, spelling). Decimal values compared as (coefficient, exponent) i.e. str(Decimal) exactly; "
                  "floats via the exact (mantissa, exponent) against the nearest-binary64 specification.")
     data = _data(ctx)
     try:
@@ -458,6 +560,7 @@ def correspond(ctx):
         corr.failures.append({"stream": "construct", "case": {"ctx": "any", "route": "construct", "name": ""},
                               "what": f"PhysicalConstantsContext could not be constructed: {type(e).__name__}: {e}", "observed": repr(e)})
         return corr
+    objs = [ctxs[nm][1] for nm in ("CODATA2014", "CODATA2018", "noarg")]       # objects #0 #1 #2 of the call history
     specs = {y: build_spec(data, y) for y in (2014, 2018)}
     legacy = build_legacy_spec(data)
     # corpus entries: (ctx, route, name) or (ctx, route, attribute, lower-cased constant name the attribute belongs to)
@@ -468,33 +571,103 @@ def correspond(ctx):
     reqs += gen_requests(ctx, data, ctxs)
     terms, meta = [], []
     seen = set()
+    term_seen = set()
+    first_out = {}          # (ctx, route, name) -> answer of the base object, for the history stream
+    forms = {}              # (ctx, route, name) -> spelling of the get() call (GET_FORM_TEXT); the published spelling always uses form 0
+
+    def judge(stream, tag, year, cobj, route, name, attr_of, case, sample=False, distinct=True):
+        form = forms.get((case["ctx"], route, name), 0)
+        if form:
+            case["form"] = form
+            case["call"] = GET_FORM_TEXT[route][form]
+            corr.hit(f"call_form_{route}_{form}")
+        out = impl_call(cobj, route, name, form)
+        corr.count(f"{tag}:{route}")
+        corr.hit("impl_" + out[0] + ("_" + out[1] if out[0] == "err" else ""))
+        if out[0] in ("datum", "float"):
+            if distinct:
+                corr.nontriv((tag, route, name))
+            if sample and ctx.rng.random() < 0.0004:
+                corr.sample({"ctx": tag, "route": route, "name": name, "impl": out[1:] if out[0] == "datum" else out[1].hex()})
+        bad = oracle(data, year, specs[year], legacy, route, name, out, attr_of)
+        if bad:
+            corr.failures.append({"stream": stream + ":" + route, "case": case, "what": bad, "observed": out})
+        et = expect_term(out)
+        if et is None:
+            if not bad:
+                corr.failures.append({"stream": stream + ":" + route, "case": case, "what": f"answer outside the modelled domain: {out}", "observed": out})
+            return out
+        term = f"({cz(year)}, {RT[route]}, {cstr(name)}, {et})"
+        if term not in term_seen:          # the model is a function of (year, route, name): identical cases are evaluated once
+            term_seen.add(term)
+            terms.append(term)
+            meta.append((case, out))
+        return out
+
+    base_reqs = []
     for cname, route, name, attr_of in reqs:
         key = (cname, route, name)
         if key in seen:
             continue
         seen.add(key)
+        base_reqs.append((cname, route, name, attr_of))
         year, cobj = ctxs[cname]
-        out = impl_call(cobj, route, name)
-        corr.count(f"{cname}:{route}")
-        corr.hit("impl_" + out[0] + ("_" + out[1] if out[0] == "err" else ""))
-        if out[0] in ("datum", "float"):
-            corr.nontriv(key)
-            if ctx.rng.random() < 0.0004:
-                corr.sample({"ctx": cname, "route": route, "name": name, "impl": out[1:] if out[0] == "datum" else out[1].hex()})
-        bad = oracle(data, year, specs[year], legacy, route, name, out, attr_of)
+        if route in GET_FORMS and name != name.lower() and name != name.upper() and attr_of is None:
+            # mixed-case spellings (the published one when it has capitals, and the random-case one): any equivalent call form
+            forms[key] = ctx.rng.randrange(len(GET_FORMS[route]))
         case = {"ctx": cname, "route": route, "name": name, "attr_of": attr_of}
-        if bad:
-            corr.failures.append({"stream": "oracle:" + route, "case": case, "what": bad, "observed": out})
-        et = expect_term(out)
-        if et is None:
-            if not bad:
-                corr.failures.append({"stream": "oracle:" + route, "case": case, "what": f"answer outside the modelled domain: {out}", "observed": out})
-            continue
-        terms.append(f"({cz(year)}, {RT[route]}, {cstr(name)}, {et})")
-        meta.append((case, out))
+        first_out[key] = judge("oracle", cname, year, cobj, route, name, attr_of, case, sample=True)
+
+    # ---- call histories: contexts built later in the same process, and the base objects looked at again afterwards ----
+    # (state shared between contexts: the module-level NIST tables behind raw_codata, class attributes, the units registry)
+    by_ctx = {}
+    for cname, route, name, attr_of in base_reqs:
+        by_ctx.setdefault(cname, []).append((route, name, attr_of))
+    done_ops = [list(o) for o in BASE_OPS]
+    nth = {2014: 2, 2018: 1}            # contexts of that year built so far (singleton, #0, noarg / #1)
+    changed = 0
+    try:
+        for op in LATER_OPS:
+            run_ops([op], objs)
+            done_ops.append(list(op))
+            if op[0] != "new":
+                continue
+            idx = len(objs) - 1
+            year = YEAR_OF_ARG[op[1]]
+            nth[year] += 1
+            like = "CODATA%d" % year
+            tag = f"{like}#{nth[year]}"
+            for route, name, attr_of in by_ctx[like]:
+                case = {"ctx": like, "route": route, "name": name, "attr_of": attr_of, "ops": [list(o) for o in done_ops], "obj": idx}
+                out = judge("oracle:history", tag, year, objs[idx], route, name, attr_of, case)
+                if out != first_out[(like, route, name)] and not (out[0] == "float" and out[1] != out[1]):
+                    changed += 1
+        # afterwards: every object built so far (and the singleton) answers as it did when it was new; requests in another order
+        again = [("CODATA2014", 0), ("CODATA2018", 1), ("noarg", 2), ("default", "default")]
+        for cname, idx in again:
+            year, cobj = ctxs[cname]
+            order = list(by_ctx[cname])
+            ctx.rng.shuffle(order)
+            for route, name, attr_of in order:
+                case = {"ctx": cname, "route": route, "name": name, "attr_of": attr_of, "ops": [list(o) for o in done_ops], "obj": idx}
+                out = judge("oracle:afterwards", cname + "@end", year, cobj, route, name, attr_of, case, distinct=False)
+                if out != first_out[(cname, route, name)] and not (out[0] == "float" and out[1] != out[1]):
+                    changed += 1
+    except Exception as e:
+        corr.failures.append({"stream": "oracle:history", "case": {"ctx": "any", "route": "construct", "name": "", "ops": [list(o) for o in done_ops]},
+                              "what": f"call history could not be executed: {type(e).__name__}: {e}", "observed": repr(e)})
+    corr.hit("history_answers_changed" if changed else "history_answers_unchanged")
+    if changed:
+        corr.notes.append(f"{changed} answers of later-built / re-examined contexts differ from the first answers (each judged by the oracle and the model)")
     # completeness: no published constant is missing / nothing else is offered under a non-documented key
-    for cname, (year, cobj) in ctxs.items():
+    keyed = [(cname, year, cobj, {}) for cname, (year, cobj) in ctxs.items()]
+    for idx in range(len(BASE_OPS), len(objs)):
+        year = getattr(objs[idx], "year", None)
+        if year in (2014, 2018):
+            keyed.append((f"CODATA{year}#obj{idx}", year, objs[idx], {"ops": [list(o) for o in done_ops], "obj": idx}))
+    for cname, year, cobj, hist in keyed:
         allowed = set(specs[year]) | (set(legacy) if year == 2018 else set())
+        cn = cname.split("#")[0]
         try:
             keys = list(cobj.pc.keys())
         except Exception:
@@ -502,12 +675,14 @@ def correspond(ctx):
         corr.count(f"{cname}:keys", len(keys))
         for k in keys:
             if k not in allowed:
-                corr.failures.append({"stream": "oracle:extra-key", "case": {"ctx": cname, "route": "item", "name": k, "attr_of": None, "extra": True},
+                corr.failures.append({"stream": "oracle:extra-key", "case": dict({"ctx": cn, "route": "item", "name": k, "attr_of": None, "extra": True}, **hist),
                                       "what": f"key {k!r} is neither a published constant nor a documented alias", "observed": k})
         for k in allowed:
             if k not in keys:
-                corr.failures.append({"stream": "oracle:missing-key", "case": {"ctx": cname, "route": "item", "name": k, "attr_of": None},
+                corr.failures.append({"stream": "oracle:missing-key", "case": dict({"ctx": cn, "route": "item", "name": k, "attr_of": None}, **hist),
                                       "what": f"{k!r} is missing from pc", "observed": None})
+    if any("ops" in (f.get("case") or {}) for f in corr.failures):
+        minimise_history(ctx, corr.failures)
     c0 = CORPUS[0]
     corr.sample({"ctx": c0[0], "route": c0[1], "name": c0[2], "impl": impl_call(ctxs[c0[0]][1], c0[1], c0[2])[1].hex()})
     if data.get("gen_failed"):
@@ -543,8 +718,10 @@ def search(ctx, corr, reasons):
     legacy = build_legacy_spec(data)
     for d in corr.disagreements:
         case = d["case"]
+        if "ops" in case:
+            continue      # a call-history case: judged by the oracle when it was executed (the history cannot be re-run in this process)
         year, cobj = ctxs[case["ctx"]]
-        out = impl_call(cobj, case["route"], case["name"])
+        out = impl_call(cobj, case["route"], case["name"], case.get("form", 0))
         bad = oracle(data, year, specs[year], legacy, case["route"], case["name"], out, case.get("attr_of"))
         if bad:
             found.append({"stream": "search", "case": case, "what": bad, "observed": out})
@@ -554,13 +731,25 @@ def search(ctx, corr, reasons):
 def replay(ctx, rp):
     case = rp["case"]
     data = _data(ctx)
-    ctxs = contexts()
     specs = {y: build_spec(data, y) for y in (2014, 2018)}
     legacy = build_legacy_spec(data)
-    if case.get("route") == "construct":
-        return {"fails": False, "note": "contexts construct"}
-    year, cobj = ctxs[case["ctx"]]
-    out = impl_call(cobj, case["route"], case["name"])
+    if "ops" in case:
+        # a call-history case: this process has only imported qcelemental; execute the recorded history, then ask the recorded object
+        import qcelemental
+        try:
+            objs = run_ops(case["ops"])
+        except Exception as e:
+            return {"case": case, "fails": True, "oracle": f"call history could not be executed: {type(e).__name__}: {e}"}
+        if case.get("route") == "construct":
+            return {"fails": False, "note": "the call history executes"}
+        cobj = qcelemental.constants if case["obj"] == "default" else objs[case["obj"]]
+        year = {"CODATA2014": 2014, "CODATA2018": 2018, "default": 2014, "noarg": 2014}[case["ctx"]]
+    else:
+        ctxs = contexts()
+        if case.get("route") == "construct":
+            return {"fails": False, "note": "contexts construct"}
+        year, cobj = ctxs[case["ctx"]]
+    out = impl_call(cobj, case["route"], case["name"], case.get("form", 0))
     if case.get("extra"):
         allowed = set(specs[year]) | (set(legacy) if year == 2018 else set())
         bad = None if (out[0] == "err" or case["name"] in allowed) else "key is neither a published constant nor a documented alias"
@@ -594,7 +783,10 @@ LEVEL_TEXT = (
     "exact rational result, for ALL operands), C02_nearest64_ok_meaning (for all inputs: no number with a 53-bit mantissa is closer; ties to even) "
     "and C02_float_is_nearest (every table value's float form is that nearest double). Wave 3: C02_routes_agree (pc[lower name], get(return_tuple), "
     "get and the attribute deliver the same Datum / the float of the same Decimal); a context constructed without argument is a fourth "
-    "object of the correspondence.")
+    "object of the correspondence. Wave 4 (correspondence only, no new theorem): call histories — the full enumeration is repeated on the second and third "
+    "context of each year built later in the same process (both orders, a unit conversion on each object before the next is built) and on the first "
+    "objects and the singleton afterwards (shuffled order); failing histories are minimised in fresh processes and replayed from `import qcelemental`; "
+    "equivalent spellings of the get() call (positional/keyword arguments) are drawn per request.")
 LEVEL_NOTE = (
     "Clause map (full version at the top of coq/Props/C02.v): retrievable by NIST name in any case -> C02_table_is_nist, C02_get_case_insensitive, "
     "C02_get_upper_lower, C02_no_undocumented_keys; as attribute -> C02_table_is_nist, C02_mangle_is_documented, C02_attr_is_mangled_label; value/unit/"
@@ -602,7 +794,8 @@ LEVEL_NOTE = (
     "(CPython's float(Decimal) itself: correspondence, bit for bit); aliases = documented definitions -> C02_alias_definitions, "
     "C02_alias_power_of_ten_sanity, C02_alias_documented_magnitudes, C02_calorie_joule, C02_derived_2018_definitions, C02_decimal_*; 2018 keeps 2014 "
     "names -> C02_renames_2018, C02_legacy_names_retrievable, C02_legacy_spelling; four access routes -> C02_routes_agree; default singleton / default "
-    "constructor argument = CODATA2014 -> translator (verbatim, fail-closed) + correspondence only. "
+    "constructor argument = CODATA2014 -> translator (verbatim, fail-closed) + correspondence only; every later-built context of a process answers like "
+    "the first (no state shared between contexts) -> verbatim pin of __init__ + correspondence only (streams oracle:history, oracle:afterwards). "
     "Trusted: Coq kernel + vm_compute; translators harness/translate/codata.py; the hand-written models of Decimal (Common/DecC02.v) and of "
     "__init__/get (Model/Constants.v), tied by correspondence only; CPython decimal/str/OrderedDict/float(Decimal) and pydantic Datum are modelled, "
     "not verified (but the Decimal model itself is now PROVED to be a correct rounding, and 'float is the nearest double' is a theorem about "
